@@ -17,7 +17,7 @@ PROP = 'C14'
 LEVEL = 'exploration'
 ASSUMPTIONS = [
     'circuits: exporter outputs for all relation-free programs of length <= 2 (3 on a sub-alphabet) over the kinds the exporter supports, blocks with counts, and library circuits; '
-    'settings grid: default (T1,T2) in three pairs incl. T2 > 2 T1 (clamp), assignment error in {0, 0.02, 0.5}, one per-qubit override, two duration tables (measurement longest / not longest), '
+    'settings grid: default (T1,T2) in three pairs incl. T2 > 2 T1 (clamp), assignment error in {0, 0.02, 0.5}, two per-qubit overrides (one with an explicit zero assignment error), two duration tables (measurement longest / not longest), '
     'index maps {empty, total, partial}',
     'reference formula mc/ref/noise.py; continuous parameters are covered on this grid only',
 ]
@@ -26,6 +26,7 @@ T_PAIRS = ((10e-6, 15e-6), (5e-6, 5e-6), (1e-6, 5e-6))
 ASSIGN = (0.0, 0.02, 0.5)
 TABLES = ((500e-9, 60e-9, 30e-9, 20e-9), (10e-9, 60e-9, 30e-9, 20e-9))   # (M, CZ, H, X)
 OVERRIDE = (2e-6, 3e-6, 0.1)
+OVERRIDE_ZERO = (5e-6, 4e-6, 0.0)    # a qubit whose own entry says: no assignment error at all (an explicit zero is a value, not 'unset')
 MAPS = ('empty', 'total', 'partial')
 
 
@@ -53,7 +54,8 @@ def judge(res, label, sc, setting):
     ae = ASSIGN[ai]
     dmz, dcz, dh, dx = TABLES[di]
     ns = NoiseSettings(default_t1=t1, default_t2=t2, default_assignment_error=ae,
-                       individual_noise={QubitIDObj('A'): QubitNoiseModelParameters(t1=OVERRIDE[0], t2=OVERRIDE[1], assignment_error=OVERRIDE[2])},
+                       individual_noise={QubitIDObj('A'): QubitNoiseModelParameters(t1=OVERRIDE[0], t2=OVERRIDE[1], assignment_error=OVERRIDE[2]),
+                                         QubitIDObj('B0'): QubitNoiseModelParameters(t1=OVERRIDE_ZERO[0], t2=OVERRIDE_ZERO[1], assignment_error=OVERRIDE_ZERO[2])},
                        operation_durations=OperationDurationParameters(duration_mz=dmz, duration_cz=dcz, duration_h=dh, duration_x=dx))
     base = expand(sc.flattened())
     qubits = sorted({t[1] for name, tg, a in base for t in tg if t[0] == 'q'})
@@ -67,6 +69,8 @@ def judge(res, label, sc, setting):
     def params(q):
         if q in imap and imap[q].id == 'A':
             return OVERRIDE
+        if q in imap and imap[q].id == 'B0':
+            return OVERRIDE_ZERO
         return (t1, t2, ae)
     noisy = apply_noise(sc, imap, noise_settings=ns)
     got = expand(noisy)
